@@ -123,6 +123,10 @@ class Sym:
         if o["k"] == "const":
             if "promoted" in o and getattr(self.f, "promoted", None) and o["promoted"] < len(self.f.promoted):
                 return ("constref", promoted_value(self.f, o["promoted"]))
+            if "const_def" in o:
+                v = named_const_value(self.f.facts, o["const_def"])
+                if v is not None:
+                    return v
             if o.get("ty", "").startswith("std::option::Option<") and o.get("v", "").startswith("{transmute(0x0000000000000000)"):
                 return ("none",)      # the all-zero constant of an Option of a non-null pointer (niche encoding of None)
             return ("const", op_const(o), o["v"], o.get("fn"))
@@ -288,6 +292,32 @@ def promoted_value(f, idx):
     except CheckerError:
         pass
     _PROM[k] = v
+    return v
+
+
+_NAMED = {}
+
+
+def named_const_value(facts, def_id):
+    """value of a local named constant (`const X: T = ..`), from its initialiser body"""
+    k = (id(facts), def_id)
+    if k in _NAMED:
+        return _NAMED[k]
+    v = None
+    for s_ in facts.d.get("statics", []):
+        if s_["id"] == def_id and s_.get("const"):
+            from core import Fn
+            try:
+                g = Fn(facts, {"id": def_id, "promoted": []}, s_["mir"])
+                paths = enumerate_paths(g)
+                if len(paths) == 1:
+                    st = run_path(g, paths[0])
+                    v = st.read_key((0,))
+                    if v[0] == "ref":
+                        v = st.read_key(v[1])
+            except Exception:
+                v = None
+    _NAMED[k] = v
     return v
 
 
